@@ -243,6 +243,7 @@ fn item(ctx: &Ctx, i: usize, rep: &mut Report) {
     };
     let label = format!("tdigest({},delta={},backlog={},{},weights={})", sf.name(), delta, backlog, fam.name(), ["unit", "unit", "1e-3..1e3", "1..1e6"][wmode as usize]);
     rep.config(&label);
+    let (vscale, voffset) = *r.pick(&[(1.0, 0.0), (1.0, 0.0), (1e-19, 0.0), (1e9, 0.0), (1e4, 1.7e12), (-1.0, 0.0), (1e12, 0.0)]);
     let mut t = make_td(sf, delta, backlog);
     let mut st = Stats { consistency_ratio: 0.0, nontie_ratio: 0.0, mono_excursion_tau: 0.0, end_excursion_tau: 0.0, reads: 0 };
     let mut w_min = f64::INFINITY;
@@ -252,7 +253,7 @@ fn item(ctx: &Ctx, i: usize, rep: &mut Report) {
         check_empty(t.as_ref())?;
         let mid_check = if n > 10 { 1 + r.below(n as u64 - 1) as usize } else { usize::MAX };
         for k in 0..n {
-            let x = fam.gen(&mut r, k, n);
+            let x = fam.gen(&mut r, k, n) * vscale + voffset;
             let w = match wmode {
                 2 => 10f64.powf(r.f64() * 6.0 - 3.0),
                 3 => 10f64.powf(r.f64() * 6.0).floor(),
@@ -297,7 +298,7 @@ fn item(ctx: &Ctx, i: usize, rep: &mut Report) {
         rep.violation(
             format!("{}/{}", sig, sf.name()),
             format!("{} after {} inserts ({} centroids): {}", label, n, cents.len(), what),
-            json!({"scale": sf, "delta": delta, "backlog": backlog, "family": fam.name(), "n": n, "weight_mode": wmode, "heavy_ends": heavy_ends, "item": i,
+            json!({"scale": sf, "delta": delta, "backlog": backlog, "family": fam.name(), "n": n, "weight_mode": wmode, "heavy_ends": heavy_ends, "value_scale": vscale, "value_offset": voffset, "item": i,
                    "min": t.min(), "max": t.max(), "centroids_head": cents.iter().take(12).collect::<Vec<_>>(), "centroids_tail": cents.iter().rev().take(6).collect::<Vec<_>>()}),
         );
         return;
